@@ -101,29 +101,87 @@ __CPROVER_assigns(*u)
 void h_scan(void) { char *s; unsigned long *u; scan_ulong(s, u); }
 #endif
 
-/* ================= substdio output side: put / bput / flush ================= */
-#ifdef P_SUBSTDO
-#include "substdio.h"
-static substdio *g_ss; char *g_x0; unsigned g_size; int g_fail_seen; unsigned long g_written;
-void byte_copy(char *to, unsigned int n, char *from)
-{ V_ASSERT(n == 0 || (__CPROVER_same_object(to, g_ss->x) && __CPROVER_POINTER_OFFSET(to) + (unsigned long)n <= g_size), "C20: substdio never writes outside its buffer"); }
-#include "substdo.c"
-void h_substdo(void)
-{
-  substdio ss; size_t len = ND_ULONG(); int which = ND_INT(), r; static char src[1];
-  g_ss = &ss; g_size = 1 + ND_UINT() % 8192; ss.x = malloc(g_size); V_ASSUME(ss.x != 0); g_x0 = ss.x; ss.n = (int)g_size; ss.p = ND_INT(); V_ASSUME(0 <= ss.p && ss.p <= ss.n); ss.fd = 1; ss.op = 0;
-  V_ASSUME(len <= 1ul << 40);
-  if (which == 0) r = substdio_put(&ss, src, len); else if (which == 1) r = substdio_bput(&ss, src, len); else if (which == 2) r = substdio_flush(&ss); else r = substdio_putflush(&ss, src, len);
-  V_ASSERT(r == 0 || r == -1, "C20: supporting");
-  V_ASSERT(0 <= ss.p && ss.p <= ss.n && ss.n == (int)g_size, "C20: the substdio buffer index stays within the buffer after every operation");
-  V_COVER(r == 0 && which == 1 && len > 9000);
-}
-#endif
-
 /* ================= getlen of qmail-qmtpd (netstring length) ================= */
 #ifdef P_GETLEN
 int g_exit = -1;
 #include "qmail-qmtpd.c"
 ssize_t substdio_get(substdio *s, char *b, size_t n) { V_ASSERT(s == &ssin && n == 1, "C20: supporting"); *b = ND_CHAR(); return 1; }
 void h_getlen(void) { unsigned long r = getlen(); V_ASSERT(r <= 2000000009ul, "C20,C07: a netstring length is accepted only up to 2000000009 and its computation cannot overflow"); V_COVER(r > 1000000000ul); }
+#endif
+
+/* ================= substdio input side: feed / get / bget ================= */
+#ifdef P_SUBSTDI
+#include <errno.h>
+#include "substdio.h"
+static substdio *g_ss; unsigned g_size; char *g_ub; unsigned long g_ulen; int g_reads; long g_got;
+#define IN_X(ptr, cnt) (__CPROVER_same_object((ptr), g_ss->x) && __CPROVER_POINTER_OFFSET(ptr) + (unsigned long)(cnt) <= g_size)
+#define IN_U(ptr, cnt) (__CPROVER_same_object((ptr), g_ub) && __CPROVER_POINTER_OFFSET(ptr) + (unsigned long)(cnt) <= g_ulen)
+void byte_copy(char *to, unsigned int n, char *from)
+{ V_ASSERT(n == 0 || (IN_U(to, n) && IN_X(from, n)), "C20: substdio copies only from inside its buffer to inside the caller's buffer"); }
+void byte_copyr(char *to, unsigned int n, char *from)
+{ V_ASSERT(n == 0 || (IN_X(to, n) && IN_X(from, n)), "C20: substdio shifts data only inside its own buffer"); }
+ssize_t my_read(int fd, char *b, size_t n)
+{
+  long r = ND_LONG();
+  V_ASSERT(IN_X(b, n) || IN_U(b, n), "C20: read() is asked to fill only memory inside the substdio buffer or the caller's buffer");
+  V_ASSERT(n > 0, "C20: supporting: no zero-length read (it would be taken for end of file)");
+  V_ASSUME(-1 <= r && r <= (long)n);
+  if (r == -1) { errno = ND_INT(); V_ASSUME(errno != EINTR); }   /* the EINTR retry loop of oneread() is not followed */
+  ++g_reads; g_got = r;
+  return r;
+}
+#include "substdi.c"
+void h_substdi(void)
+{
+  substdio ss; int which = ND_INT(); long r; int p0, avail0;
+  g_ss = &ss; g_size = 1 + ND_UINT() % 8192; ss.x = malloc(g_size); V_ASSUME(ss.x != 0);
+  ss.p = ND_INT(); V_ASSUME(0 <= ss.p && ss.p <= (int)g_size); ss.n = (int)g_size - ss.p; ss.fd = 0; ss.op = my_read; p0 = ss.p;
+  g_ulen = ND_ULONG(); V_ASSUME(1 <= g_ulen && g_ulen <= 0x7fffffff); g_ub = malloc(g_ulen); V_ASSUME(g_ub != 0); g_reads = 0; g_got = 0;
+  if (which == 0) { r = substdio_feed(&ss); V_ASSERT(r >= -1 && r <= (long)g_size && (r <= 0 || r == ss.p), "C20: substdio_feed reports exactly the bytes it holds"); V_ASSERT(p0 == 0 || (r == p0 && !g_reads), "C20: supporting: buffered input is handed out before anything is read"); }
+  else if (which == 1) { r = substdio_get(&ss, g_ub, g_ulen); V_ASSERT(r >= -1 && r <= (long)g_ulen, "C20: substdio_get never reports more bytes than were asked for"); V_ASSERT(p0 == 0 || r == (p0 < (long)g_ulen ? p0 : (long)g_ulen), "C20: supporting: buffered input first"); }
+#ifdef DEPRECATED_FUNCTIONS_AVAILABLE
+  else { r = substdio_bget(&ss, g_ub, g_ulen); V_ASSERT(r >= -1 && r <= (long)g_ulen, "C20: substdio_bget never reports more bytes than were asked for"); }
+#else
+  else return;
+#endif
+  V_ASSERT(0 <= ss.p && 0 <= ss.n && ss.p + ss.n == (int)g_size, "C20: the unread input always lies inside the substdio buffer (p + n == size)");
+  V_ASSERT(g_reads <= 1, "C20: supporting: at most one read per call");
+  V_COVER(which == 1 && g_reads == 1 && r > 0 && ss.p > 0); V_COVER(which == 0 && r > 0 && ss.n > 0 && g_reads);
+}
+#endif
+
+/* ================= substdio output side with loop contracts: flush / put / bput / putflush / allwrite ================= */
+#ifdef P_SUBSTDO2
+#include <errno.h>
+#include "substdio.h"
+substdio g_so; char *g_x; unsigned g_size; char *g_ub; unsigned long g_ulen; unsigned long g_copied, g_len0;
+#define IN_X(ptr, cnt) (__CPROVER_same_object((ptr), g_x) && __CPROVER_POINTER_OFFSET(ptr) + (unsigned long)(cnt) <= g_size)
+#define IN_U(ptr, cnt) (__CPROVER_same_object((ptr), g_ub) && __CPROVER_POINTER_OFFSET(ptr) + (unsigned long)(cnt) <= g_ulen)
+void byte_copy(char *to, unsigned int n, char *from)
+{ V_ASSERT(n == 0 || (IN_X(to, n) && IN_U(from, n)), "C20: substdio copies only from inside the caller's data to inside its own buffer"); g_copied += n; }
+ssize_t my_write(int fd, const char *b, size_t n)
+{
+  long w = ND_LONG();
+  V_ASSERT(n > 0 && (IN_X(b, n) || IN_U(b, n)), "C20: write() is handed only memory inside the substdio buffer or the caller's data");
+  V_ASSUME(-1 <= w && w <= (long)n);
+  if (w == -1) V_HAVOC_ERRNO();
+  return w;
+}
+#include "substdo.c"
+void h_substdo2(void)
+{
+  int which = ND_INT(), r; unsigned long len;
+#ifdef FORCE_WHICH
+  which = FORCE_WHICH;
+#endif
+  g_size = 1 + ND_UINT() % 8192; g_x = __CPROVER_allocate(g_size, 0);
+  g_so.x = g_x; g_so.n = (int)g_size; g_so.p = ND_INT(); V_ASSUME(0 <= g_so.p && g_so.p <= g_so.n); g_so.fd = 1; g_so.op = my_write;
+  g_ulen = ND_ULONG(); V_ASSUME(1 <= g_ulen && g_ulen <= 0xffffffffUL); g_ub = __CPROVER_allocate(g_ulen, 0);
+  len = ND_ULONG(); V_ASSUME(len <= g_ulen); g_copied = 0; g_len0 = len;
+  if (which == 0) r = substdio_put(&g_so, g_ub, len); else if (which == 1) { r = substdio_bput(&g_so, g_ub, len); if (r == 0) V_ASSERT(g_copied == len, "C20: supporting: substdio_bput passes every byte through the buffer exactly once"); }
+  else if (which == 2) r = substdio_flush(&g_so); else if (which == 5) { V_ASSUME(len <= g_size); r = allwrite(my_write, 1, g_x, len); } else r = substdio_putflush(&g_so, g_ub, len);
+  V_ASSERT(r == 0 || r == -1, "C20: supporting");
+  V_ASSERT(g_so.x == g_x && 0 <= g_so.p && g_so.p <= g_so.n && g_so.n == (int)g_size, "C20: the substdio output index stays within the buffer after every operation");
+  V_COVER(r == 0 && which == 1 && len > 9000); V_COVER(r == 0 && which == 0 && len > 9000 && g_so.p > 0);
+}
 #endif
